@@ -63,6 +63,10 @@ typedef enum polyseed_coin {
     /* The maximum supported value is 2047. */
     /* When adding a new coin, please open a pull request: */
     /* https://github.com/tevador/polyseed */
+
+    /* Not a coin. Makes the type wide enough for every supported value on
+       ABIs that size an enum by its enumerators (e.g. -fshort-enums). */
+    POLYSEED_COIN_MAX = 2047,
 } polyseed_coin;
 
 typedef enum polyseed_status {
